@@ -23,11 +23,12 @@ ASIS = {  # documented counter-examples: cfg -> property that must be violated
     "Lifecycle_listener_asis.cfg": "NoLockCycle",
     "Lifecycle_ping_asis.cfg": "Released",
     "Lifecycle_ping_errsend.cfg": "Released",
+    "Lifecycle_stream_watchctx.cfg": "Released",   # early dial goroutine follows the caller's ctx, error path leaves the socket to it (seeded c17-dial-cancelled-by-notice-keeps-socket)
     "Lifecycle_socket_rlock.cfg": "CloseReturns",   # registry read lock held across the hand-over (seeded c17-delivery-holds-listener-rlock)
 }
 WITNESSES = {
     "Lifecycle_socket.cfg": ["W_NoBlockedPair", "W_NoDeliverAfterClose"],
-    "Lifecycle_stream.cfg": ["W_NoStreamReleasedState", "W_NoHalfCloseOnly"],
+    "Lifecycle_stream.cfg": ["W_NoStreamReleasedState", "W_NoHalfCloseOnly", "W_NoDialFailedByNotice"],
     "Lifecycle_ping.cfg": ["W_NoPingReturned"],
 }
 
